@@ -21,8 +21,7 @@ func c05eval(a *arithParsers, raw string, before []string) (v interface{}, err e
 		fs.AddFile(text.NewFile(fmt.Sprintf("earlier%d", i), []byte(b)))
 	}
 	f := text.NewFile("f", []byte(raw))
-	fs.AddFile(f)
-	ctx := parsley.NewContext(fs, text.NewReader(f))
+	ctx := parsley.NewContext(fs, placeFile(fs, f, (len(raw)+len(before))%2 == 1))
 	func() {
 		defer func() {
 			if e := recover(); e != nil {
